@@ -1162,7 +1162,14 @@ class Interp:
                 raise
             except NeedFork:
                 if ctx.branch(a, "implies-antecedent"):
-                    return self.wrap_bool(self.truth(self.eval(node.args[1], fr)))
+                    try:
+                        return self.wrap_bool(self.truth(self.eval(node.args[1], fr)))
+                    except PyRaise:
+                        if ctx.assuming:
+                            # a verified callee's postcondition is well defined on every real
+                            # result, so this combination cannot occur
+                            raise Infeasible() from None
+                        raise
                 return True
         if name == "ite":
             c = self.truth(self.eval(node.args[0], fr))
